@@ -413,13 +413,17 @@ def readyMeansPods (rel : Rel) (batch : Int) (w : Wl) (cl : Cluster) : Bool :=
 
 def isReady (o : VerdictOut) : Bool := o.verdict == .is .ok
 
-/-- **C11 `sts_ready_means_live_ready_pods`**: the verdict is `Ready` only if the pods say so; the check issues no write;
-    the counters it worked with are exact -/
+/-- **C11 `sts_updated_ready_exact`** on a whole answer: the counters the check worked with (when it got that far) -/
+def countersSound (d : Option Wl) (cl : Cluster) (o : VerdictOut) : Bool :=
+  match d, o.counters with
+  | some w, some c => countersExact w cl c
+  | some _, none => o.verdict == .err
+  | none, some _ => false
+  | none, none => o.verdict == .err
+
+/-- **C11 `sts_ready_means_live_ready_pods`**: the verdict is `Ready` only if the pods say so; the check issues no write -/
 def verdictSound (rel : Rel) (batch : Int) (d : Option Wl) (cl : Cluster) (o : VerdictOut) : Bool :=
   o.writes == 0 &&
-  (match d, o.counters with
-   | some w, some c => countersExact w cl c
-   | _, _ => true) &&
   (if isReady o then
      (match d with
       | some w => readyMeansPods rel batch w cl
